@@ -4,8 +4,10 @@ import Props.C07
 #print axioms SpyneModel.Props.C07.toposort_order_independent
 #print axioms SpyneModel.Props.C07.toposort_complete
 #print axioms SpyneModel.Props.C07.wsdl_deterministic
+#print axioms SpyneModel.Props.C07.faults_in_tns
 #print axioms SpyneModel.Props.C07.message_porttype_binding_refs_closed
 #print axioms SpyneModel.Props.C07.schema_refs_closed
+#print axioms SpyneModel.Props.C07.header_parts_resolve
 #print axioms SpyneModel.Props.C07.wsdl_closed
 #print axioms SpyneModel.Props.C07.prefixes_injective
 #print axioms SpyneModel.Props.C07.ops_exactly_once
@@ -13,3 +15,4 @@ import Props.C07
 #print axioms SpyneModel.Props.C07.layout_witness
 #print axioms SpyneModel.Props.C07.header_ref_witness
 #print axioms SpyneModel.Props.C07.porttype_witness
+#print axioms SpyneModel.Props.C07.fault_namespace_witness
